@@ -181,7 +181,6 @@ def _parse_op(description, el_op, invocation, allow_concat=False, implicit_outpu
                 # -> Replace single input bracket with single output bracket
                 def _to_output(expr):
                     bracket_num = len([e for e in expr.nodes() if isinstance(e, stage1.Brackets)])
-                    assert bracket_num > 0
                     if bracket_num == 1:
 
                         def _replace(expr):
